@@ -1244,13 +1244,18 @@ func checkIteratorEmission(p *Prog, r *Report) {
 			kind = "ports"
 			// ((X.EndPort-X.StartPort)+1) with the same X
 			ok := false
-			if a, isA := stripAdd1(call.Call.Args[0]); isA {
-				if bo, isB := a.(*ssa.BinOp); isB && bo.Op == token.SUB && bits32(bo.Type()) {
-					x, y := sx(bo.X, 0), sx(bo.Y, 0)
-					if strings.HasSuffix(x, ".EndPort") && strings.HasSuffix(y, ".StartPort") && strings.TrimSuffix(x, ".EndPort") == strings.TrimSuffix(y, ".StartPort") {
-						ok = true
+			// end - start + 1 over the same range X, in any order of the additions, at >= 32 bits
+			if lf, isL := linForm(R(stripConvAll(call.Call.Args[0]))); isL && lf.c == 1 && lf.minBits >= 32 && len(lf.coef) == 2 {
+				var e, st string
+				for k, c := range lf.coef {
+					if c == 1 && strings.HasSuffix(k, ".EndPort") {
+						e = strings.TrimSuffix(k, ".EndPort")
+					}
+					if c == -1 && strings.HasSuffix(k, ".StartPort") {
+						st = strings.TrimSuffix(k, ".StartPort")
 					}
 				}
+				ok = e != "" && e == st
 			}
 			r.Check(ok, "C01.R5", name+"/size", pos, "a port range is iterated over exactly end-start+1 positions, computed in arithmetic of at least 32 bits", "size expression "+size)
 		case strings.Contains(size, "Size("):
@@ -1333,14 +1338,18 @@ func checkIteratorEmission(p *Prog, r *Report) {
 			case "ports":
 				// ((X.StartPort-1)+Int64(Int(it)))
 				want := false
-				if bo, isB := stripConvAll(before[0].Val).(*ssa.BinOp); isB && bo.Op == token.ADD && bits32(bo.Type()) {
-					l, rr := sx(bo.X, 0), sx(bo.Y, 0)
-					if strings.HasSuffix(l, ".StartPort-1)") && strings.Contains(rr, ").Int(") {
-						want = true
+				// start + Int() - 1 in any order of the additions, at >= 32 bits
+				if lf, isL := linForm(stripConvAll(before[0].Val)); isL && lf.c == -1 && lf.minBits >= 32 && len(lf.coef) == 2 {
+					nStart, nInt := 0, 0
+					for k, c := range lf.coef {
+						if c == 1 && strings.HasSuffix(k, ".StartPort") {
+							nStart++
+						}
+						if c == 1 && strings.Contains(k, ").Int(") {
+							nInt++
+						}
 					}
-					if strings.HasSuffix(rr, ".StartPort-1)") && strings.Contains(l, ").Int(") {
-						want = true
-					}
+					want = nStart == 1 && nInt == 1
 				}
 				if !want {
 					okV, whyV = false, "emitted port is "+ev+", expected (start-1)+Int()"
@@ -1875,4 +1884,57 @@ func checkPortlessModes(p *Prog, r *Report) int {
 		}
 	}
 	return n
+}
+
+// linForm normalises an integer expression built with +, -, conversions and constants into a linear
+// combination of atoms (rendered structurally) plus a constant. minBits is the narrowest width in which any
+// of the additions / subtractions is carried out.
+type linear struct {
+	coef    map[string]int64
+	c       int64
+	minBits int
+}
+
+func linForm(v ssa.Value) (linear, bool) {
+	out := linear{coef: map[string]int64{}, minBits: 64}
+	var walk func(v ssa.Value, sign int64, d int) bool
+	walk = func(v ssa.Value, sign int64, d int) bool {
+		if d > 12 {
+			return false
+		}
+		switch t := v.(type) {
+		case *ssa.Const:
+			if k, ok := constInt(t); ok {
+				out.c += sign * k
+				return true
+			}
+			return false
+		case *ssa.Convert:
+			return walk(t.X, sign, d+1)
+		case *ssa.ChangeType:
+			return walk(t.X, sign, d+1)
+		case *ssa.BinOp:
+			if t.Op == token.ADD || t.Op == token.SUB {
+				if b, _, ok := typeBits(t.Type()); ok && b < out.minBits {
+					out.minBits = b
+				}
+				if !walk(t.X, sign, d+1) {
+					return false
+				}
+				if t.Op == token.SUB {
+					return walk(t.Y, -sign, d+1)
+				}
+				return walk(t.Y, sign, d+1)
+			}
+		}
+		out.coef[sx(v, 0)] += sign
+		return true
+	}
+	ok := walk(v, 1, 0)
+	for k, c := range out.coef {
+		if c == 0 {
+			delete(out.coef, k)
+		}
+	}
+	return out, ok
 }
